@@ -461,3 +461,34 @@ class Lemmas(Contract):
 
 ALL = [IsCaseSensitive(), GetCase(), IsUnixStyle(), NoNegateFlags(), FnFlagTransform(), GlobFlagTransform(), IsNegative(), IsNegativeBytes(),
        PathlibTranslateFlags(), WcMatchParseFlags(), Lemmas()]
+
+
+# ------------------------------------------------------------------ concrete spec functions for the CPython cross-checks
+class spec_callees:
+    """Context manager: while a REAL constructor is run for an engine-vs-CPython cross-check, the callees that the contract replaces by
+    their SPEC are replaced by that same spec evaluated concretely (host platform: Linux, case-sensitive) - so a callee that breaks its
+    own contract shows up in its own contract, not as a disagreement between pyvc and CPython in the caller."""
+    HOST = [(PLAT_WIN, z3.BoolVal(False)), (CASE_FS, z3.BoolVal(True)), (OS_NT, z3.BoolVal(False))]
+
+    @classmethod
+    def _bool(cls, spec):
+        return lambda f: z3.is_true(z3.simplify(z3.substitute(spec(bv(f & ((1 << BV) - 1))), *cls.HOST)))
+
+    @classmethod
+    def _word(cls, spec):
+        return lambda f: z3.simplify(z3.substitute(spec(bv(f & ((1 << BV) - 1))), *cls.HOST)).as_long()
+
+    def __enter__(self):
+        from wcmatch import _wcparse, glob
+        self.saved = [(_wcparse, 'get_case', _wcparse.get_case), (_wcparse, 'is_unix_style', _wcparse.is_unix_style), (_wcparse, 'no_negate_flags', _wcparse.no_negate_flags),
+                      (glob, '_flag_transform', glob._flag_transform)]
+        _wcparse.get_case = self._bool(S_get_case)
+        _wcparse.is_unix_style = self._bool(S_is_unix_style)
+        _wcparse.no_negate_flags = self._word(lambda f: f & ~bv(WC['NEGATE'] | WC['NEGATEALL']))
+        glob._flag_transform = self._word(S_T_glob)
+        return self
+
+    def __exit__(self, *a):
+        for mod, name, fn in self.saved:
+            setattr(mod, name, fn)
+        return False
